@@ -3576,7 +3576,8 @@ func UnmarshalPrefixSID(psid *api.PrefixSID) (*bgp.PathAttributePrefixSID, error
 					Length: tlvLength,
 				},
 			}
-			s.Length += tlvLength
+			// 3 bytes of the TLV header
+			s.Length += tlvLength + 3
 			// Storing Sub TLVs in a Service TLV
 			o.SubTLVs = append(o.SubTLVs, tlvs...)
 			// Adding Service TLV to Path Attribute TLV slice.
@@ -3585,8 +3586,6 @@ func UnmarshalPrefixSID(psid *api.PrefixSID) (*bgp.PathAttributePrefixSID, error
 			return nil, fmt.Errorf("unknown or not implemented Prefix SID type: %+v", tlv)
 		}
 	}
-	// Final Path Attribute Length is 3 bytes of the Path Attribute header longer
-	s.Length += 3
 	return s, nil
 }
 
@@ -3629,8 +3628,8 @@ func UnmarshalSubTLVs(stlvs map[uint32]*api.SRv6SubTLVs) (uint16, []bgp.PrefixSI
 				// SRv6 Information Sub TLV length consists 1 byte Resrved2, 16 bytes SID, 1 byte flags, 2 bytes Endpoint Behavior
 				// 1 byte Reserved3 and length of Sub Sub TLVs
 				info.Length = 1 + 16 + 1 + 2 + 1 + sstlvslength
-				// For total Prefix SID TLV length, adding 3 bytes of the TLV header + 1 byte of Reserved1
-				l += info.Length + 4
+				// For total Prefix SID TLV length, adding 3 bytes of the Sub TLV header
+				l += info.Length + 3
 				p = append(p, info)
 			}
 		default:
@@ -3638,7 +3637,8 @@ func UnmarshalSubTLVs(stlvs map[uint32]*api.SRv6SubTLVs) (uint16, []bgp.PrefixSI
 		}
 	}
 
-	return l, p, nil
+	// 1 byte of Reserved1 precedes the Sub TLVs
+	return l + 1, p, nil
 }
 
 func UnmarshalSubSubTLVs(stlvs map[uint32]*api.SRv6SubSubTLVs) (uint16, []bgp.PrefixSIDTLVInterface, error) {
